@@ -149,14 +149,21 @@ func newCLWorld(c *vk.Ctx, r *vk.Rng, hooks clHooks) *clWorld {
 	w.spacing = clSpacings[r.Intn(4)]
 	w.spread = cltypes.AuthorizedSpreadFactors[r.Intn(len(cltypes.AuthorizedSpreadFactors))]
 	k := w.ch.App.ConcentratedLiquidityKeeper
+	// the spread-reward and the incentive accumulators migrated to scaled values at different pool ids:
+	// a pool can be above one threshold and below the other
 	w.scaled = r.Bool()
-	if w.scaled {
-		k.SetSpreadFactorPoolIDMigrationThreshold(w.ch.Ctx, 0)
-		k.SetIncentivePoolIDMigrationThreshold(w.ch.Ctx, 0)
-	} else {
-		k.SetSpreadFactorPoolIDMigrationThreshold(w.ch.Ctx, 1000)
-		k.SetIncentivePoolIDMigrationThreshold(w.ch.Ctx, 1000)
+	scaledIncent := w.scaled
+	if r.Intn(3) == 0 {
+		scaledIncent = !w.scaled
 	}
+	thr := func(on bool) uint64 {
+		if on {
+			return 0
+		}
+		return 1000
+	}
+	k.SetSpreadFactorPoolIDMigrationThreshold(w.ch.Ctx, thr(w.scaled))
+	k.SetIncentivePoolIDMigrationThreshold(w.ch.Ctx, thr(scaledIncent))
 	// authorised uptimes: all six in half of the histories, a seed-chosen subset otherwise
 	w.uptimes = cltypes.SupportedUptimes
 	if r.Bool() {
